@@ -36,7 +36,8 @@ Inductive OrdEffect (d : dstate) (t : thread) (d' : dstate) (t' : thread) : Prop
     (od_leg : legacy v = false)
     (od_sz1 : sz <> -1)
     (od_sz2 : sz <> size v)
-    (od_nc : commit_of t t' = None).
+    (od_nc : commit_of t t' = None)
+    (od_elem : exists e, find_key (lookup_key k hash) (order (lru d)) = Some e /\ eid e = id).
 
 Definition OrdStep (c : cfg) (d : dstate) (X : list xcommit) (t : thread) : Prop :=
   forall d' t', tstep c d t = Some (d', t') ->
@@ -170,10 +171,11 @@ Lemma ord_GetDrop c d X k hash sz off zstd b rnd h tmp v id :
 Proof.
   intros d' t' H HI _ _ HV _. unfold val_ok in HV. simpl in HV. destruct HV as (V1 & V2 & V3 & V4).
   unfold tstep in H. simpl in H.
-  destruct (find_key (lookup_key k hash) (order (lru d))) as [e|]; [|same H].
-  match type of H with (if ?b then _ else _) = _ => destruct b end; [|same H].
+  destruct (find_key (lookup_key k hash) (order (lru d))) as [e|] eqn:EFK; [|same H].
+  match type of H with (if ?b then _ else _) = _ => destruct b eqn:EG end; [|same H].
   destruct (LRU.remove_element id (lru d)) as [l2|] eqn:ER; [|same H].
-  inv H. eapply ODrop; try reflexivity; eassumption.
+  apply andb_true_iff in EG as [EG _]. apply Nat.eqb_eq in EG.
+  inv H. eapply ODrop; try reflexivity; try eassumption. exists e. split; [exact EFK|exact EG].
 Qed.
 
 Lemma unreserve_held2 h s :
